@@ -362,6 +362,11 @@ theorem gf_sqrt_spec (a : Nat) (ha : a < 2 ^ P.B) :
     ((X86.sqrt P a).2 = T32 ↔ X86.square P (X86.sqrt P a).1 % P.q = a % P.q) ∧
     ((X86.sqrt P a).2 = T32 ∨ (X86.sqrt P a).2 = 0) := sqrt_spec_all P hP a ha
 
+/-- the exponent chain of `gf*_sqrt` computes `a^((q+1)/4)`: the returned value is a square root of every
+    square (all levels; with `gf_sqrt_spec`: in range, even canonical value, flag ⇔ root) -/
+theorem gf_sqrt_root [Fact P.q.Prime] (a : Nat) (ha : a < 2 ^ P.B) (hsq : IsSquare (xval P a)) :
+    xval P (X86.sqrt P a).1 * xval P (X86.sqrt P a).1 = xval P a := sqrt_root P hP ha hsq
+
 /-- Pornin binary GCD (inversion / division): one outer iteration of the model's `divOuterStep` preserves
     the invariant `a·x·2^k ≡ y·u ∧ b·x·2^k ≡ y·v (mod q)` (with k ↦ k+31) for any update coefficients
     that satisfy `CoeffsOK` (bounded by 2^31, combinations divisible by 2^31).  PARTIAL: that the inner
@@ -380,7 +385,7 @@ theorem gf_div_outer_invariant_partial (st : DivSt) (k : Nat) (x y : Int)
   SqiProofs.GfX86.divOuterStep_invariant P hP st k x y ha hb hu hv hc h1 h2
 
 /-- the x86 model satisfies the GF(p²)/C06 interface `FpRefines`; arithmetic fields proved, the fields
-    resting on the binary GCD / sqrt exponent chain are the explicit hypothesis `X86Cited` -/
+    resting on the binary GCD (`inv`, `isSquare`) are the explicit hypothesis `X86Cited` -/
 theorem x86_backend_refines [Fact P.q.Prime] (hc : X86Cited P) :
     FpRefines (X86.ops P) P.q (fun a => a < 2 ^ P.B) (xval P) := x86_refines hP hc
 
